@@ -54,26 +54,28 @@ def scanner_facts(fn: FunctionInfo, preallocated: bool) -> dict:
     def role(lin):
         out = {}
         for k, v in lin.items():
-            r = "buflen" if k in buflens else "seplen" if k in seplens else "offset" if k == offname else "const" if k == "" else f"?{k}"
+            r = "buflen" if (k in buflens or k == f"len({bufname})") else "seplen" if (k in seplens or k == f"len({sepname})") else "offset" if k == offname else "const" if k == "" else f"?{k}"
             out[r] = out.get(r, 0) + v
         return {k: v for k, v in out.items() if v != 0 or k == "const"}
 
-    # guard: the innermost If that contains the search
+    # guard: the innermost If that contains the search (in either arm; mirrored / negated forms are normalised)
+    from sa.norm import cmp_canon, lin_resolved
     guard = None
+    guard_side = True
     for iff in own_nodes(fn.node):
-        if isinstance(iff, ast.If) and any(find in list(ast.walk(s)) for s in iff.body):
-            if guard is None or iff.lineno > guard.lineno:
-                guard = iff
+        if isinstance(iff, ast.If):
+            in_body = any(find in list(ast.walk(s)) for s in iff.body)
+            in_else = any(find in list(ast.walk(s)) for s in iff.orelse)
+            if (in_body or in_else) and (guard is None or iff.lineno > guard.lineno):
+                guard, guard_side = iff, in_body
     g_ok = False
-    if guard is not None and isinstance(guard.test, ast.Compare) and len(guard.test.ops) == 1:
-        l, r = linear(guard.test.left), linear(guard.test.comparators[0])
-        if l is not None and r is not None:
-            diff = dict(l)
-            for k, v in r.items():
-                diff[k] = diff.get(k, 0) - v
-            rr = role(diff)
+    if guard is not None:
+        test = guard.test if guard_side else ast.UnaryOp(op=ast.Not(), operand=guard.test)
+        c = cmp_canon(fn, test)
+        if c is not None:
+            rr = role(c[0])
             # buflen - offset - seplen >= 0
-            g_ok = isinstance(guard.test.ops[0], ast.GtE) and rr.get("buflen") == 1 and rr.get("offset") == -1 and rr.get("seplen") == -1 and rr.get("const", 0) == 0 and not any(k.startswith("?") for k in rr)
+            g_ok = c[1] == ">=" and rr.get("buflen") == 1 and rr.get("offset") == -1 and rr.get("seplen") == -1 and rr.get("const", 0) == 0 and not any(k.startswith("?") for k in rr)
     facts["guard_buflen_minus_offset_ge_seplen"] = g_ok
     # resume offset: assignments to the offset variable
     resume = []
@@ -94,8 +96,32 @@ def scanner_facts(fn: FunctionInfo, preallocated: bool) -> dict:
     facts["resume"] = [r for r, _ in resume]
     facts["resume_ok"] = bool(resume) and all(r.get("buflen") == 1 and r.get("seplen") == -1 and r.get("const", 0) <= 1 and not any(k.startswith("?") for k in r) and inside for r, inside in resume)
     facts["resume_k"] = sorted({r.get("const", 0) for r, _ in resume})
-    # post-match: offset = sepidx + seplen
-    facts["post_match_ok"] = bool(post) and all(p.get("seplen") == 1 and sum(1 for k in p if k.startswith("?")) == 1 and p.get("const", 0) == 0 for p in post)
+    # post-match: the frame end handed on is `sepidx + seplen` - through the offset variable, another local, or directly in the result
+    sepidx = None
+    for n in own_nodes(fn.node):
+        if isinstance(n, (ast.Assign, ast.AnnAssign, ast.NamedExpr)) and getattr(n, "value", None) is find:
+            tg = n.targets[0] if isinstance(n, ast.Assign) else n.target
+            sepidx = tg.id if isinstance(tg, ast.Name) else None
+    cands = []
+    for n in own_nodes(fn.node):
+        if isinstance(n, (ast.Assign, ast.AnnAssign)) and getattr(n, "value", None) is not None:
+            cands.append(n.value)
+        if isinstance(n, ast.Return) and n.value is not None:
+            cands += list(n.value.elts) if isinstance(n.value, ast.Tuple) else [n.value]
+        if isinstance(n, ast.Subscript) and isinstance(n.slice, ast.Slice):
+            cands += [x for x in (n.slice.lower, n.slice.upper) if x is not None]
+    post_ok = False
+    for e in cands:
+        lin = lin_resolved(fn, e)
+        if lin is None or sepidx is None:
+            continue
+        rr = {}
+        for k, v in lin.items():
+            r_ = "sepidx" if k == sepidx else "seplen" if (k in seplens or k == f"len({sepname})") else "const" if k == "" else f"?{k}"
+            rr[r_] = rr.get(r_, 0) + v
+        if rr.get("sepidx") == 1 and rr.get("seplen") == 1 and rr.get("const", 0) == 0 and not any(k.startswith("?") for k in rr):
+            post_ok = True
+    facts["post_match_ok"] = post_ok or (bool(post) and all(p.get("seplen") == 1 and sum(1 for k in p if k.startswith("?")) == 1 and p.get("const", 0) == 0 for p in post))
     return facts
 
 
@@ -229,6 +255,13 @@ class Inject(RuleAnalysis):
         self.sends = 0
 
     def initial(self, fn):
+        # locals that are a plain copy of the parked-generator attribute (`consumer = self.__consumer` / walrus): testing them tests it
+        self.aliases = set()
+        for n in own_nodes(fn.node):
+            if isinstance(n, (ast.Assign, ast.AnnAssign, ast.NamedExpr)) and isinstance(getattr(n, "value", None), ast.Attribute) and (dotted(n.value) or "").endswith(self.gen_attr):
+                for t in (n.targets if isinstance(n, ast.Assign) else [n.target]):
+                    if isinstance(t, ast.Name):
+                        self.aliases.add(t.id)
         return [("parked?", "n/a")]
 
     def may_raise(self, node, fact):
@@ -269,7 +302,7 @@ class Inject(RuleAnalysis):
         g, r = fact
         if isinstance(test, ast.Compare) and len(test.ops) == 1 and isinstance(test.comparators[0], ast.Constant) and test.comparators[0].value is None:
             left = test.left.value if isinstance(test.left, ast.NamedExpr) else test.left
-            if (dotted(left) or "").endswith(self.gen_attr):
+            if (dotted(left) or "").endswith(self.gen_attr) or (isinstance(left, ast.Name) and left.id in self.aliases and g == "parked?"):
                 is_none, not_none = ("none", r), ("parked", r)
                 if isinstance(test.ops[0], ast.Is):
                     return [is_none], [not_none]
@@ -734,6 +767,14 @@ def check_esc(eng, run):
             t = iff.test
             if isinstance(t, ast.Compare) and len(t.ops) == 1 and isinstance(t.ops[0], (ast.Eq, ast.NotEq)) and (_is_backslash(fn, ci, t.left) or _is_backslash(fn, ci, t.comparators[0])):
                 on_esc, on_other = (iff.body, iff.orelse) if isinstance(t.ops[0], ast.Eq) else (iff.orelse, iff.body)
+                # guard-clause form: `if byte != ESC: break` followed by the toggle (or `if byte == ESC: toggle; continue` followed by break)
+                for blk in [x.body for x in ast.walk(lp) if isinstance(getattr(x, "body", None), list)]:
+                    if iff in blk:
+                        rest = blk[blk.index(iff) + 1:]
+                        if not on_esc and on_other and isinstance(on_other[-1], (ast.Break, ast.Return)):
+                            on_esc = rest
+                        elif not on_other and on_esc and isinstance(on_esc[-1], ast.Continue):
+                            on_other = rest
                 for st in on_esc:
                     if isinstance(st, ast.Assign) and isinstance(st.value, ast.UnaryOp) and isinstance(st.value.op, ast.Not) and dotted(st.value.operand) == dotted(st.targets[0]):
                         toggles, result_var = True, dotted(st.targets[0])
